@@ -1296,7 +1296,7 @@ pub fn info_build_print(doc: &str) -> Outcome {
     in_child("info.build_print_inproc", doc, "a document (printed both ways) or an error", "parse / information set / print")
 }
 
-fn in_child(op: &str, doc: &str, want: &str, site: &str) -> Outcome {
+pub fn in_child(op: &str, doc: &str, want: &str, site: &str) -> Outcome {
     use std::io::Read;
     use std::process::{Command, Stdio};
     let exe = std::env::current_exe().unwrap();
